@@ -129,6 +129,12 @@ def run_for_property(prop, tier="quick", only=None, jobs=4):
                     continue
                 todo.append((u, h))
         results = []
+        # concurrent `pv check` processes share one Kani target dir: serialise the Kani phases across processes
+        # (the per-harness timeouts then measure verification, not waiting for cargo's build-directory lock)
+        import fcntl
+        os.makedirs(os.path.dirname(KANI_TARGET), exist_ok=True)
+        lockf = open(os.path.join(os.path.dirname(KANI_TARGET), "kani.lock"), "w")
+        fcntl.flock(lockf, fcntl.LOCK_EX)
         # first harness alone (compiles the crate once), the rest in parallel
         def one(uh):
             u, h = uh
@@ -143,6 +149,10 @@ def run_for_property(prop, tier="quick", only=None, jobs=4):
                 results += list(ex.map(one, todo[1:]))
         return {"status": "ok", "results": results, "units": [u["id"] for u in units]}
     finally:
+        try:
+            lockf.close()
+        except Exception:
+            pass
         shutil.rmtree(scratch, ignore_errors=True)
 
 
